@@ -59,8 +59,9 @@ CONFIGS = {
     # every worker's forwarder is started by its runner; one of them sets run-level tags
     "2xrun": [
         # (a1 changes its tags once more between its outcome and stopTest: local to a1, and too late
-        # to be forwarded)
-        [("startTestRun",), ("test", "a1", "addSuccess", None, ("late",)), ("test", "a2", "addFailure", ("x",))],
+        # to be forwarded; a2 reports a second outcome - an error on top of its failure - which is a
+        # block of its own with a2's start time and tags)
+        [("startTestRun",), ("test", "a1", "addSuccess", None, ("late",)), ("test", "a2", "addFailure", ("x",), None, "addError")],
         [("startTestRun",), ("gtags", ("g",), ()), ("test", "b1", "addSkip", None), ("gtags", (), ("g",)), ("test", "b2", "addSuccess", None)],
     ],
     # explicit times that repeat: a test whose start and end coincide, a test starting at the very
@@ -203,6 +204,8 @@ def execute(config, chooser, faults=True, make_forwarder=None):
                     call((tid, "tags"), tfr.tags, set(ttags), set())
                 call((tid, "time"), tfr.time, TEST_TIMES[tid][1])
                 call((tid, outcome), getattr(tfr, outcome), t, **OUTCOME_ARGS[outcome]())
+                if len(step) > 5:
+                    call((tid, step[5]), getattr(tfr, step[5]), t, **OUTCOME_ARGS[step[5]]())
                 if late:
                     call((tid, "tags"), tfr.tags, set(late), set())
                 call((tid, "stopTest"), tfr.stopTest, t)
@@ -264,6 +267,8 @@ def check_execution(config, sched, sem, target, seen_exc):
         for step in script:
             if step[0] == "test":
                 groups.append(("block", expected_block(g, step)))
+                if len(step) > 5:
+                    groups.append(("block", expected_block(g, step[:2] + (step[5],) + step[3:4])))
             elif step[0] == "gtags":
                 new, gone = set(step[1]), set(step[2])
                 g = ((g[0] | new) - gone, (g[1] | gone) - new)
